@@ -191,8 +191,21 @@ def build_args(desc: dict[str, Any], recipe: list[Any], variant: int, profile: s
     args: list[Any] = []
     si: list[Any] = []
     info = {"noncoherent": False, "unit_mantissa": False, "units": []}
+    seen_dims: dict[Any, int] = {}
     for i, p in enumerate(desc["params"]):
         num, den, k, sgn, u1, u2, px1, px2 = recipe[i % len(recipe)]
+        if profile == "tied":
+            # ties: parameters of one dimension get exactly the same SI value (boundaries of piecewise laws, a - b = 0);
+            # every other time also the same unit spelling
+            dkey = str(_dimvec(p["dim"])) if _dimvec(p["dim"]) is not None else None
+            if dkey is not None and dkey in seen_dims:
+                j = seen_dims[dkey]
+                num, den, k, sgn = recipe[j % len(recipe)][:4]
+                if sgn % 2 == 0:
+                    u1, u2, px1, px2 = recipe[j % len(recipe)][4:]
+                info["tied"] = True
+            elif dkey is not None:
+                seen_dims[dkey] = i
         mant = sympy.Rational(num, den * 7)
         if mant == 1:
             info["unit_mantissa"] = True
@@ -443,6 +456,27 @@ def _call(fn: Any, names: list[str], args: list[Any], keyword: bool) -> tuple[st
         return "raised", exc
 
 
+def _infinite_mismatch(eq: Any, sub: dict[Any, Any], qsub: dict[Any, Any]) -> str | None:
+    """A side of the published equation that evaluates to +oo or -oo (a piecewise law on its infinite branch) is compared
+    as an extended real number: the other side must be the same infinity.  zoo/nan sides (singular points) are not judged."""
+    import sympy
+    try:
+        lv = sympy.sympify(eq.lhs).xreplace(sub).xreplace(qsub)
+        rv = sympy.sympify(eq.rhs).xreplace(sub).xreplace(qsub)
+        lv, rv = sympy.N(lv, 30), sympy.N(rv, 30)
+    except Exception:  # pylint: disable=broad-except
+        return None
+    inf = (sympy.oo, -sympy.oo)
+    if lv not in inf and rv not in inf:
+        return None
+    for v in (lv, rv):
+        if v not in inf and not (v.is_number and v.is_finite and v.is_real is not False):
+            return None
+    if lv == rv:
+        return ""
+    return f"left-hand side evaluates to {lv}, right-hand side to {rv}"
+
+
 def _judge(desc: dict[str, Any], recipe: list[Any], profile: str = "macro") -> tuple[list[tuple[str, str]], dict[str, Any]]:
     # pylint: disable=too-many-locals,too-many-branches,too-many-statements,too-many-return-statements
     import sympy
@@ -459,7 +493,8 @@ def _judge(desc: dict[str, Any], recipe: list[Any], profile: str = "macro") -> t
     args_a, si_a, inf_a = a
     args_b, si_b, _inf_b = b
     names = [p["name"] for p in desc["params"]]
-    info.update({"noncoherent": inf_a["noncoherent"], "unit_mantissa": inf_a["unit_mantissa"], "units": inf_a["units"]})
+    info.update({"noncoherent": inf_a["noncoherent"], "unit_mantissa": inf_a["unit_mantissa"], "units": inf_a["units"],
+        "tied": bool(inf_a.get("tied"))})
     st_a, res_a = _call(desc["fn"], names, args_a, False)
     if st_a != "ok":
         info["status"] = "raised:" + type(res_a).__name__
@@ -473,7 +508,7 @@ def _judge(desc: dict[str, Any], recipe: list[Any], profile: str = "macro") -> t
         n0 = _num(raw)
         if n0.is_number and n0.is_finite and n0 != 0 and abs(sympy.log(abs(n0), 10)) > 200:
             # astronomically small/large results (exp of +-1e15): every comparison is ill-conditioned; discarded, counted
-            return [], {"status": "extreme-result"}
+            return [], {"status": "extreme-result", "tied": info["tied"]}
         va = exactify(raw)
         na = _num(va)
     except Exception:  # pylint: disable=broad-except
@@ -481,6 +516,18 @@ def _judge(desc: dict[str, Any], recipe: list[Any], profile: str = "macro") -> t
         return [], info
     if not (na.is_number and na.is_finite):
         info["status"] = "non-finite-result"
+        if na in (sympy.oo, -sympy.oo) and desc["equation"] is not None:
+            attr, eq = desc["equation"]
+            sub = {p["sym"]: v for p, v in zip(desc["params"], si_a)}
+            sub[desc["out_sym"]] = na
+            try:
+                bad = _infinite_mismatch(eq, sub, {q: si_value(q) for q in eq.atoms(SymQuantity)})
+            except Exception:  # pylint: disable=broad-except
+                bad = None
+            if bad is not None:
+                info["tier"] = "residual-infinite"
+            if bad:
+                return [(f"residual:{site}", f"{site} returned {na} for {_show(args_a)}, but in the published equation '{attr}' the {bad}")], info
         return [], info
     info["result_zero"] = bool(na == 0)
     if na != 0 and abs(sympy.log(abs(na), 10)) > 200:
@@ -550,7 +597,11 @@ def _judge(desc: dict[str, Any], recipe: list[Any], profile: str = "macro") -> t
         res = _num((eq.lhs - eq.rhs).xreplace(sub).xreplace(qsub))
         sc = _terms_scale(eq, sub, qsub)
         if not (res.is_number and res.is_finite and sc.is_number and sc.is_finite):
-            info["residual_skipped"] = "non-finite"
+            bad = _infinite_mismatch(eq, sub, qsub)
+            if bad:
+                out.append((f"residual:{site}", f"{site} returned {_fmt(na)} for {_show(args_a)}, but in the published equation '{attr}' the {bad}"))
+                return out, info
+            info["residual_skipped"] = "non-finite" if bad is None else "infinite-sides-agree"
             return out, info
         if sc != 0 and abs(sympy.log(sc, 10)) > 200:
             info["residual_skipped"] = "extreme-terms"
@@ -788,6 +839,18 @@ def _shard(task: dict[str, Any]) -> Recorder:
                             labels=["profile:tiny", "tier:" + str(info3.get("tier"))])
                     elif info3.get("status") == "hang":
                         rec.inconclusive += 1
+                if r_i == 0 or task.get("tiny_all"):
+                    # additional attempt: parameters of equal dimension tied to the same SI value
+                    res4, info4 = judge(desc, recipe, profile="tied")
+                    if info4.get("tied") or info4.get("status") not in (None, "unsupported-parameter"):
+                        st4 = str(info4.get("status", "ok")).split(":")[0]
+                        for key, what in res4:
+                            rec.violation(key, what, {"module": modname, "function": fname, "recipe": recipe, "profile": "tied"})
+                        if st4 == "hang":
+                            rec.inconclusive += 1
+                        if info4.get("tied"):
+                            rec.case({"f": site, "r": recipe, "p": "tied"}, nontrivial=st4 in ("ok", "non-finite-result"),
+                                labels=["profile:tied", "tied:status:" + st4, "tier:" + str(info4.get("tier"))])
                 status = info.get("status", "ok")
                 labels = ["status:" + status.split(":")[0], "profile:" + profile]
                 if status == "hang":
